@@ -23,6 +23,10 @@ POSITIONS = ['select', 'where', 'inlist', 'insert', 'update', 'neg', 'sub', 'inl
              # the literal's type from its context prints it through that type)
              'cast-int', 'cast-float', 'cast-char', 'inlist-after-int', 'inlist-after-float', 'inlist-before-int',
              'plus-after-int', 'compare-with-int-function', 'between-ints']
+# other ways of naming the same targets (the alias, a dialect class): the five basic positions
+ALT_PATHS = ['postgres', 'class:mysql', 'class:postgresql', 'class:sqlite', 'class:mssql', 'class:oracle']
+ALT_POSITIONS = ['select', 'where', 'inlist', 'insert', 'update']
+STYLE.update({'postgres': 'std', 'class:mysql': 'mysql', 'class:postgresql': 'std', 'class:sqlite': 'std', 'class:mssql': 'std', 'class:oracle': 'std'})
 BENIGN = 'zqz'
 TYPED = [0, 7, -3, 12345678901234567890, 1.5, -0.25, 1e-7, 2.75, -0.5, 100000000000000000000.5, True, False, None,
          dt.date(2020, 2, 29), dt.datetime(2011, 1, 1, 10, 20, 30), dt.datetime(2011, 1, 1, 10, 20, 30, 123456)]
@@ -102,6 +106,9 @@ def render(path, tree):
     if path == 'to_string':
         return tree.to_string()
     from mindsdb_sql.render.sqlalchemy_render import SqlalchemyRender
+    if path.startswith('class:'):       # the renderer also takes a sqlalchemy dialect class instead of a name
+        import importlib
+        return SqlalchemyRender(importlib.import_module('sqlalchemy.dialects.' + path[6:]).dialect).get_string(tree, with_failback=False)
     return SqlalchemyRender(path).get_string(tree, with_failback=False)
 
 
@@ -127,8 +134,8 @@ def _case(value_spec):
     out = []
     import warnings
     warnings.filterwarnings('ignore', message='.*rendering literal NULL.*')
-    for path in PATHS:
-        for pos in POSITIONS:
+    for path in PATHS + ALT_PATHS:
+        for pos in (POSITIONS if path in PATHS else ALT_POSITIONS):
             try:
                 sk = skeleton(path, pos)
                 if sk is None:
@@ -170,6 +177,13 @@ def judge_typed(value, lit, path):
             return t.upper() == 'NULL'
         if isinstance(value, bool):
             return t.lower() in (('true', '1') if value else ('false', '0'))
+        if isinstance(value, (int, float)) and path == 'to_string':
+            # the target of the tree's own string is the library's lexer: the literal must be ONE number token (after an
+            # optional sign) of that lexer -- it has no exponent notation
+            from .corpus import lex_spans
+            sp = lex_spans('mindsdb', t)
+            if sp is None or [x[0] for x in sp] not in (['INTEGER'], ['FLOAT'], ['MINUS', 'INTEGER'], ['MINUS', 'FLOAT']):
+                return False
         if isinstance(value, int):
             return int(t) == value
         if isinstance(value, float):
